@@ -208,6 +208,14 @@ func check(c Case) error {
 			return fmt.Errorf("the closing brace must be on its own line\n--- formatted ---\n%s", fmtOut)
 		}
 	case len(live) == 1:
+		// one pair is rendered inline: it starts on the line of the opening brace and the closing brace follows
+		// where it ends, however many lines its value spans
+		if len(fmtEl) == 1 && fmtEl[0].line != fset.Position(cl.Lbrace).Line {
+			return fmt.Errorf("a single pair must be rendered inline, but it starts on line %d, the opening brace is on line %d\n--- formatted ---\n%s", fmtEl[0].line, fset.Position(cl.Lbrace).Line, fmtOut)
+		}
+		if len(cl.Elts) == 1 && fset.Position(cl.Rbrace).Line != fset.Position(cl.Elts[0].End()).Line {
+			return fmt.Errorf("a single pair must be rendered inline, but the closing brace is not on the line where the pair ends\n--- formatted ---\n%s", fmtOut)
+		}
 		single := live[0]
 		if !multiline(single.Key) && !multiline(single.Val) && fset.Position(cl.Lbrace).Line != fset.Position(cl.Rbrace).Line {
 			return fmt.Errorf("a single pair must be rendered inline\n--- formatted ---\n%s", fmtOut)
